@@ -280,8 +280,8 @@ RenderOp(x) ==
   IN IF s1.note = "none" /\ ~x.none THEN [s1 EXCEPT !.note = "pn"] ELSE s1
 
 -----------------------------------------------------------------------------
-\* STABLE SORT of rows by integer-comparable keys.  Le(i, j): key i <= key j;
-\* rows are 1..n; rev = the Reverse() wrapper.
+\* STABLE SORT of the rows 1..n.  Lt(i, j): the key of row i is strictly below the key of
+\* row j; rev = the Reverse() wrapper of sort.go.
 
 \* declarative: position of row r = 1 + rows that must precede it
 RankSort(n, Lt(_, _), rev) ==
@@ -484,6 +484,8 @@ SettingsOf(fam) ==
                         \cup {Setting("none", <<1, 2>>, "none", TRUE, s) : s \in BOOLEAN}
     [] fam = "smallx" -> {Setting(t, <<1, 2>>, o, TRUE, s) : t \in {"u", "none"}, o \in {"name", "delta", "rname", "rdelta"}, s \in BOOLEAN}
                         \cup {Setting("none", <<1, 2>>, "none", g, s) : g \in BOOLEAN, s \in BOOLEAN}
+    [] fam = "smally" -> {Setting("none", <<1, 2>>, "rdelta", TRUE, s) : s \in BOOLEAN}
+                         \cup {Setting("u", <<1, 2>>, "name", FALSE, s) : s \in BOOLEAN}
     [] fam = "sim"   -> {Setting(t, a, o, g, s) : t \in AllTests, a \in AlphaGrid, o \in AllOrders, g \in BOOLEAN, s \in BOOLEAN}
     [] fam = "wide"  -> {Setting(t, <<1, 2>>, o, g, TRUE) : t \in {"u", "none"}, o \in AllOrders \ {"none"}, g \in BOOLEAN}
 
@@ -491,7 +493,7 @@ SettingsOf(fam) ==
 \* representative per multiset)
 SortedOnly == plan.fam = "pair"
 \* "small": SplitBy is set exactly when the plan uses label values (no idle labels)
-Couple == plan.fam \in {"small", "smallx"}
+Couple == plan.fam \in {"small", "smallx", "smally"}
 
 MeasSeqs == UNION {[1..k -> plan.un \X plan.vs[NC]] : k \in 1..plan.mm}
 LineU == {[b |-> b, g |-> g, ms |-> ms] : b \in plan.nb, g \in plan.gr, ms \in MeasSeqs}
@@ -665,13 +667,21 @@ PairPlans(n, V) == {Plan("pair", <<a, n>>, {1}, {u}, {0}, 1, <<V, V>>) : a \in 1
 
 \* (3) "small": small collections, exhaustively: bookkeeping, row presence, orders, groups
 SmallShapes3 == {<<3>>, <<1, 2>>, <<2, 1>>, <<1, 1, 1>>}
-SmallShapes4 == SmallShapes3 \cup {<<0, 3>>, <<4>>, <<2, 2>>, <<1, 3>>, <<3, 1>>, <<2, 0, 2>>, <<1, 2, 1>>}
+SmallShapes3x == SmallShapes3 \cup {<<0, 3>>}
+SmallShapes4 == {<<2, 2>>, <<1, 3>>, <<2, 0, 2>>, <<1, 2, 1>>}
 SmallPlans(fam, S, V) ==
   {Plan(fam, l, {1, 2}, {1, 2}, {0}, 1, [c \in 1..Len(l) |-> V]) : l \in S}
   \cup {Plan(fam, l, {1, 2}, {3}, {1, 2}, 1, [c \in 1..Len(l) |-> V]) : l \in S}
 
-QuickPlans    == CellPlans(6, CellVals4) \cup PairPlans(4, PairVals3) \cup SmallPlans("small", SmallShapes3, {1, 3})
-ThoroughPlans == CellPlans(7, CellVals5) \cup PairPlans(5, PairVals4) \cup SmallPlans("smallx", SmallShapes4, {1, 3})
+QuickPlans == CellPlans(6, CellVals4) \cup PairPlans(4, PairVals3) \cup SmallPlans("small", SmallShapes3, {1, 3})
+
+\* thorough: longer cells and a palette with fence hazards; pairs of up to 5 values (outliers
+\* inside a comparison) and over 4 values; all orders on 3-line collections incl. an empty
+\* first configuration ("smallx"); 4-line collections under two settings ("smally")
+ThoroughCellPlans  == CellPlans(7, CellVals4) \cup CellPlans(6, CellVals5)
+ThoroughPairPlans  == PairPlans(5, PairVals3) \cup PairPlans(4, PairVals4)
+ThoroughSmallPlans == SmallPlans("smallx", SmallShapes3x, {1, 3}) \cup SmallPlans("smally", SmallShapes4, {1, 3})
+ThoroughPlans == ThoroughCellPlans \cup ThoroughPairPlans \cup ThoroughSmallPlans
 
 \* (4) "sim", "wide": large collections, sampled with -simulate: 1..3 configurations, up to 3 names,
 \* 3 units, label groups, 1..2 measurements per line; value sets with an outlier, zeros,
